@@ -207,12 +207,34 @@ func HarnessC02() {
 // HarnessC02ChanWriter: the operator side: a Write of arbitrary bytes puts exactly one entry
 // equal to those bytes on the input channel.
 func HarnessC02ChanWriter() {
-	ch := make(chan string, 2)
-	p := nondetBytes(nondetLen(verifParam("m")), 0)
+	ch := make(chan string, 64)
+	var p []byte
+	if big := verifParam("big"); big > 0 {
+		p = bigPayload(big)
+	} else {
+		p = nondetBytes(nondetLen(verifParam("m")), 0)
+	}
 	n, err := opshell.ChanWriter(ch).Write(p)
 	verifAssert(err == nil && n == len(p), "C02.chanwriter.reports-all")
 	verifAssert(len(ch) == 1, "C02.chanwriter.one-entry")
 	got := <-ch
 	verifAssert(got == string(p), "C02.chanwriter.bytes-intact")
 	verifReach("C02.chanwriter")
+}
+
+// bigPayload: a payload of big-1, big or big+1 bytes: filler with arbitrary bytes (newlines
+// included) at the ends, in the middle and around the quarter points, so very long lines and
+// multi-line payloads of that size are both covered.
+func bigPayload(big int) []byte {
+	size := big - 1 + nondetChoice(3)
+	p := make([]byte, size)
+	for i := range p {
+		p[i] = 'x'
+	}
+	for _, at := range []int{0, size / 4, size / 2, size/2 + 1, size - size/4, size - 2, size - 1} {
+		if at >= 0 && at < size {
+			p[at] = nondetByte()
+		}
+	}
+	return p
 }
